@@ -392,6 +392,7 @@ func TestSampledPrograms(t *testing.T) {
 	rec.Check(t, "csp", ev.N(2500, 100000), func(rt *rapid.T) {
 		p := g.Draw(rt, "prog")
 		c := Case{Prog: p, Builder: rapid.SampledFrom([]string{prog.R1CS, prog.SCS}).Draw(rt, "builder")}
+		rec.Begin("csp", c)
 		o := runCase(c, rec)
 		o.Classes = append(o.Classes, "sampled-program")
 		rec.Report(rt, "csp", c, o)
@@ -551,6 +552,7 @@ func TestAdversarialHints(t *testing.T) {
 			WrongOut: rapid.SampledFrom([]int{-1, 0, 0, 1, 2}).Draw(rt, "wrong"), Delta: int64(rapid.IntRange(0, 3).Draw(rt, "delta2")),
 			Strat: rapid.SampledFrom([]string{"alias", "alias", "flipbit", "nonbool", "inv0", "inv1", "invrand", "none"}).Draw(rt, "strat"),
 			Which: rapid.IntRange(0, 300).Draw(rt, "which")}
+		rec.Begin("adv", c)
 		rec.Report(rt, "adv", c, runAdv(c))
 	})
 }
